@@ -27,10 +27,11 @@ OUT = os.path.join(ROOT, "coq", "Gen", "UsesTree.v")
 KNOWN_SITES = {
     ("input.c", "reb_input_fields"): ["maintain"],                      # rebuild after restore / copy
     ("particle.c", "reb_simulation_add_local"): ["maintain"],           # insert a new particle
-    ("rebound.c", "reb_simulation_step"): ["maintain_or_pending", "gravity_data"],
+    ("rebound.c", "reb_simulation_step"): ["maintain_or_pending", "gravity_data", "maintain_or_pending"],   # mid-step, gravity data, end of step
     ("tools.c", "reb_simulation_move_to_com"): ["maintain"],
 }
-KNOWN_DELETE_CALLERS = {("input.c", "reb_input_fields"), ("rebound.c", "reb_simulation_free_pointers")}
+KNOWN_DELETE_CALLERS = {("input.c", "reb_input_fields"), ("rebound.c", "reb_simulation_free_pointers"),
+                        ("particle.c", "reb_simulation_remove_all_particles")}
 
 
 def die(m):
